@@ -213,7 +213,9 @@ func WantSample(t Named) bool {
 // Exhaustive marks that a test enumerated its finite space completely.
 func Exhaustive(t Named) {
 	st.mu.Lock()
-	ts(baseName(t)).Exhaustive = true
+	if !enumCut {
+		ts(baseName(t)).Exhaustive = true
+	}
 	st.mu.Unlock()
 }
 
@@ -450,11 +452,69 @@ func Check(t *testing.T, quickN, thoroughN int, prop func(*rapid.T)) {
 	st.mu.Lock()
 	ts(baseName(t)).Requested += int64(per)
 	st.mu.Unlock()
-	rapid.Check(t, prop)
+	// the soft deadline trims the case count, never the verdict: a floor of cases is
+	// always run, a case that has started always finishes, and once a discrepancy was
+	// recorded (rapid is shrinking it) nothing is cut any more
+	floor := (quickN + NShards() - 1) / NShards() / 4
+	if floor < 5 {
+		floor = 5
+	}
+	name := baseName(t)
+	ran := 0
+	rapid.Check(t, func(rt *rapid.T) {
+		ran++
+		if ran > floor && OverBudget() && !hasFailure(name) {
+			st.mu.Lock()
+			ts(name).Inconclusive["not run: the shard's soft time budget was used up (case count trimmed)"]++
+			st.mu.Unlock()
+			return
+		}
+		prop(rt)
+	})
 }
 
-// ShardOwns splits an enumerated space over the shards.
-func ShardOwns(i int) bool { return i%NShards() == Shard() }
+var softDeadline = func() time.Time {
+	if v, err := strconv.ParseInt(os.Getenv("VERIF_SOFT_DEADLINE"), 10, 64); err == nil && v > 0 {
+		return time.Unix(v, 0)
+	}
+	return time.Time{}
+}()
+
+// OverBudget reports whether the shard's soft time budget (set by the driver well before
+// the hard deadline) is used up. Generated cases and enumerated items not yet started
+// are then skipped and counted; a run that was trimmed never claims exhaustiveness.
+func OverBudget() bool {
+	return !softDeadline.IsZero() && time.Now().After(softDeadline)
+}
+
+func hasFailure(test string) bool {
+	st.mu.Lock()
+	defer st.mu.Unlock()
+	for _, f := range st.Failures {
+		if f.Test == test {
+			return true
+		}
+	}
+	return false
+}
+
+var enumCut bool
+
+// ShardOwns splits an enumerated space over the shards (and owns nothing more once the
+// shard's soft time budget is used up).
+func ShardOwns(i int) bool {
+	if i%NShards() != Shard() {
+		return false
+	}
+	if OverBudget() {
+		st.mu.Lock()
+		enumCut = true
+		st.Avoided["enumerated items not run: soft time budget used up"]++
+		st.mu.Unlock()
+		return false
+	}
+	return true
+}
 
 // ---------------------------------------------------------------------------------
 // TestMain
